@@ -28,6 +28,15 @@ impl GetIter {
             max_repetitions: max_repetitions.unwrap_or_default(),
         })
     }
+    /// Verification hook: (start oid, next oid, max repetitions) as raw BER contents
+    #[cfg(gufo_snmp_verif)]
+    fn verif_state(&self) -> PyResult<(Vec<u8>, Vec<u8>, i64)> {
+        Ok((
+            self.start_oid.clone(),
+            self.next_oid.clone(),
+            self.max_repetitions,
+        ))
+    }
 }
 
 impl GetIter {
